@@ -1,5 +1,5 @@
 //verif:pkg pkg/fuse
-//verif:use store
+//verif:use store,fusehelp
 //verif:assume the file system is driven through its fuseutil.FileSystem methods (no kernel, no mount); fuseutil.WriteDirent is modelled by the Linux fuse_dirent layout (24-byte header, name, padding to 8; 0 when it does not fit); the FUSE server constructor is inert
 //verif:assume bundles: a solver-chosen subset, in a solver-chosen order, of the paths {a, b, d/a, d/e/a, d/e/b, f/a} (at most 4 entries; thorough 5) with symbolic sizes; readdir resume: a directory of 1..4 children (names of different lengths), every buffer size from one record to all of them, every start offset
 //verif:assume file reads: pre-downloaded mode reads through the consumable store stub, streamed mode through a content store stub; file content 5 bytes (symbolic), every offset 0..6 and length 0..6; the byte-level behaviour of the real content store is decided under C01
@@ -10,7 +10,6 @@ package fuse
 
 import (
 	"context"
-	"encoding/binary"
 	"io"
 	"strings"
 
@@ -37,32 +36,6 @@ func vMountRO(entries []model.BundleEntry) *readOnlyFsInternal {
 	_, err := fs.populateFS(b)
 	vAssert(err == nil, "populate")
 	return fs
-}
-
-type vDirRec struct {
-	ino  uint64
-	off  uint64
-	name string
-	typ  uint32
-}
-
-// vParseDirents decodes the records ReadDir wrote (fuse_dirent layout).
-func vParseDirents(buf []byte) []vDirRec {
-	var out []vDirRec
-	for p := 0; p+24 <= len(buf); {
-		ino := binary.LittleEndian.Uint64(buf[p:])
-		off := binary.LittleEndian.Uint64(buf[p+8:])
-		nl := int(binary.LittleEndian.Uint32(buf[p+16:]))
-		typ := binary.LittleEndian.Uint32(buf[p+20:])
-		name := string(buf[p+24 : p+24+nl])
-		out = append(out, vDirRec{ino, off, name, typ})
-		pad := 0
-		if nl%8 != 0 {
-			pad = 8 - nl%8
-		}
-		p += 24 + nl + pad
-	}
-	return out
 }
 
 func vReadDirAll(fs *readOnlyFsInternal, ino fuseops.InodeID) []vDirRec {
